@@ -1,14 +1,14 @@
-"""C08 — viability/necessity = greatest fixed point, in any node order.
+"""C08 — viability/necessity = greatest fixed point, in any node order, from any labels.
 Correspondence: real `calculate_viability_and_necessity` vs the Lean model
-`AGraph.calcViab/calcNec` (proved to be the gfp in Props/C08.lean)."""
+`AGraph.calcViabFrom/calcNecFrom` (proved to be the gfp in Props/C08.lean) vs an independent gfp oracle."""
 from __future__ import annotations
-import itertools, json, random
+import copy, itertools, json, random, sys
 from ..common import Result, Violation, run_driver, canon_hash
-from ..agbuild import build_graph, gate_of, TTC_KINDS
+from ..agbuild import build_graph, gate_of, ttc_fields, opposite_kind, TTC_KINDS, DIST_KINDS, PLAIN_KINDS
 
 ASSUMPTIONS = [
-    'graphs given to the analysis have converse children/parents lists (C09 invariant) and fresh labels (True, True)',
-    'CPython recursion limit not modelled (a propagation chain of ~1000 nodes raises RecursionError)',
+    'graphs given to the analysis have converse children/parents lists (C09 invariant); their is_viable / is_necessary labels are arbitrary',
+    'CPython recursion limit not modelled: the Lean functions take fuel |nodes|+1, proved sufficient; the real propagation is recursive and a chain of ~1000 steps raises RecursionError (known finding KF-C08-1, replayed on every run)',
     'float comparisons == 1.0 / != 0.0 on defense_status are computed by the harness on the real float',
 ]
 TRUSTED = ['Lean 4.33 kernel', 'axioms: propext, Classical.choice, Quot.sound',
@@ -17,15 +17,25 @@ TRUSTED = ['Lean 4.33 kernel', 'axioms: propext, Classical.choice, Quot.sound',
 
 STATUS_NODES = ('defense', 'exist', 'notExist')
 
-def payload(nodes, case):
+def payload(nodes, case, labels0=None):
+    """`labels0` = (viable, necessary) lists: the labels the nodes carry when the analysis is called"""
     out = []
     for n in nodes:
         d = n.get('def')
         out.append({'type': n['type'], 'children': n['children'], 'parents': n['parents'],
                     'defOne': d == 1.0 if d is not None else False,
                     'defZero': d == 0.0 if d is not None else True,
-                    'exist': bool(n.get('exist')), 'gate': gate_of(n.get('ttc', 'none'))})
-    return {'op': 'apriori', 'case': case, 'nodes': out, 'order': list(range(len(nodes)))}
+                    'exist': bool(n.get('exist')), **ttc_fields(n.get('ttc', 'none'))})
+    p = {'op': 'apriori', 'case': case, 'nodes': out, 'order': list(range(len(nodes)))}
+    if labels0 is not None:
+        p['viable0'] = [bool(x) for x in labels0[0]]; p['necessary0'] = [bool(x) for x in labels0[1]]
+    return p
+
+def labels0_of(nodes):
+    """labels pre-set in the node descriptions ('viable' / 'necessary' keys; build_graph applies them)"""
+    if not any('viable' in n or 'necessary' in n for n in nodes):
+        return None
+    return [n.get('viable', True) for n in nodes], [n.get('necessary', True) for n in nodes]
 
 def impl(nodes):
     from maltoolbox.attackgraph.analyzers.apriori import calculate_viability_and_necessity
@@ -36,36 +46,165 @@ def impl(nodes):
         return {'error': 'Recursion'}
     return {'viable': [o.is_viable for o in objs], 'necessary': [o.is_necessary for o in objs]}
 
-def rerun_problem(nodes, rnd):
-    """analysing the same graph object again: after a complete run, and after a run that stopped half-way on the
-    AssertionError of an invalid defense status which the caller then repaired (Props/C08.lean: rerun_is_fresh_run)"""
-    from maltoolbox.attackgraph.analyzers.apriori import calculate_viability_and_necessity
-    orc = oracle(nodes)
-    g, objs = build_graph(nodes)
-    labels = lambda: {'viable': [o.is_viable for o in objs], 'necessary': [o.is_necessary for o in objs]}
-    defs = [i for i, n in enumerate(nodes) if n['type'] == 'defense']
-    aborted = False
-    if defs and rnd.random() < 0.7:
-        k = rnd.choice(defs); good = objs[k].defense_status
-        objs[k].defense_status = rnd.choice([50.0, -1.0, None])
+# ---------------------------------------------------------------- histories on one graph object
+# A history is a list of steps applied to ONE graph object built from `nodes`:
+#   ['calc']                        calculate_viability_and_necessity(graph); the gfp oracle must hold afterwards
+#   ['def', i, x] / ['exist', i, b] change a defense / existence status (both directions)
+#   ['ttc', i, kind]                assign node.ttc (distribution <-> none / Enabled / composite ...)
+#   ['labels', [..], [..]]          overwrite is_viable / is_necessary of every node (as if loaded from a file)
+#   ['evaluate', i]                 public evaluate_viability_and_necessity(node)
+#   ['propv', i] / ['propn', i]     public propagate_viability_from_node / propagate_necessity_from_node
+#   ['abort', i, bad]               give defense i an invalid status, run calc (must raise), restore the status
+def apply_history(nodes, steps):
+    """run the history on the real code.  Returns (problem | None, calls) where calls = one record per
+    completed `calc`: (nodes as they were at the call, labels before, labels after)."""
+    from maltoolbox.attackgraph.analyzers import apriori
+    cur = copy.deepcopy(nodes)
+    g, objs = build_graph(cur)
+    labels = lambda: ([o.is_viable for o in objs], [o.is_necessary for o in objs])
+    calls = []
+    for k, st in enumerate(steps):
+        op = st[0]
         try:
-            calculate_viability_and_necessity(g)
-        except (AssertionError, TypeError):
-            aborted = True
+            if op == 'calc':
+                before = labels()
+                apriori.calculate_viability_and_necessity(g)
+                after = labels()
+                snap = copy.deepcopy(cur)
+                calls.append((snap, before, after))
+                orc = oracle(snap)
+                if list(after[0]) != orc['viable'] or list(after[1]) != orc['necessary']:
+                    return (f'after step {k} (analysis no. {len(calls)} of the same graph object) the labels are not '
+                            f'the greatest fixed point of the current graph'), calls
+            elif op == 'def':
+                objs[st[1]].defense_status = st[2]; cur[st[1]]['def'] = st[2]
+            elif op == 'exist':
+                objs[st[1]].existence_status = st[2]; cur[st[1]]['exist'] = st[2]
+            elif op == 'ttc':
+                objs[st[1]].ttc = copy.deepcopy(TTC_KINDS[st[2]]); cur[st[1]]['ttc'] = st[2]
+            elif op == 'labels':
+                for o, v, n in zip(objs, st[1], st[2]):
+                    o.is_viable = v; o.is_necessary = n
+            elif op == 'evaluate':
+                apriori.evaluate_viability_and_necessity(objs[st[1]])
+            elif op == 'propv':
+                apriori.propagate_viability_from_node(objs[st[1]])
+            elif op == 'propn':
+                apriori.propagate_necessity_from_node(objs[st[1]])
+            elif op == 'abort':
+                good = objs[st[1]].defense_status
+                objs[st[1]].defense_status = st[2]
+                try:
+                    apriori.calculate_viability_and_necessity(g)
+                    objs[st[1]].defense_status = good
+                    return f'step {k}: the analysis accepted the invalid defense status {st[2]!r}', calls
+                except (AssertionError, TypeError):
+                    pass
+                objs[st[1]].defense_status = good
         except RecursionError:
-            return None, False
-        objs[k].defense_status = good
+            return None, calls
+    return None, calls
+
+def random_history(rnd, nodes):
+    n = len(nodes)
+    stat = [i for i, nd in enumerate(nodes) if nd['type'] in STATUS_NODES]
+    defs = [i for i, nd in enumerate(nodes) if nd['type'] == 'defense']
+    steps = []
+    if rnd.random() < 0.4:       # labels as loaded from a file, before the first analysis
+        steps.append(['labels', [rnd.random() < 0.5 for _ in range(n)], [rnd.random() < 0.5 for _ in range(n)]])
+    if defs and rnd.random() < 0.3:
+        steps.append(['abort', rnd.choice(defs), rnd.choice([50.0, -1.0, None])])
+    steps.append(['calc'])
+    for _ in range(rnd.randint(1, 3)):
+        for _ in range(rnd.randint(1, 3)):
+            r = rnd.random()
+            if r < 0.45 and stat:
+                i = rnd.choice(stat)
+                if nodes[i]['type'] == 'defense':
+                    steps.append(['def', i, rnd.choice([0.0, 0.5, 1.0, 1.0, 0.0])])
+                else:
+                    steps.append(['exist', i, rnd.random() < 0.5])
+            elif r < 0.6:
+                i = rnd.randrange(n)
+                steps.append(['ttc', i, rnd.choice(DIST_KINDS + PLAIN_KINDS)])
+            elif r < 0.7:
+                steps.append(['labels', [rnd.random() < 0.5 for _ in range(n)], [rnd.random() < 0.5 for _ in range(n)]])
+            elif r < 0.8:
+                steps.append(['evaluate', rnd.randrange(n)])
+            elif r < 0.9:
+                steps.append([rnd.choice(['propv', 'propn']), rnd.randrange(n)])
+            elif defs:
+                steps.append(['abort', rnd.choice(defs), rnd.choice([50.0, -1.0, None])])
+        steps.append(['calc'])
+    if rnd.random() < 0.3:
+        steps.append(['calc'])   # a second run without any change is the identity
+    return steps
+
+def shrink_history(nodes, steps, failing):
+    """drop steps, then nodes (steps that mention a dropped node go with it), while `failing` stays true"""
+    changed = True
+    while changed:
+        changed = False
+        for k in range(len(steps)):
+            cand = steps[:k] + steps[k + 1:]
+            if failing(nodes, cand):
+                steps = cand; changed = True; break
+        if changed: continue
+        for i in range(len(nodes)):
+            if len(nodes) <= 1: break
+            cn = []
+            for j, nd in enumerate(nodes):
+                if j == i: continue
+                m = dict(nd)
+                m['children'] = [c - (c > i) for c in nd['children'] if c != i]
+                m['parents'] = [p - (p > i) for p in nd['parents'] if p != i]
+                cn.append(m)
+            cs = []
+            for st in steps:
+                if st[0] in ('def', 'exist', 'ttc', 'evaluate', 'propv', 'propn', 'abort'):
+                    if st[1] == i: continue
+                    cs.append([st[0], st[1] - (st[1] > i)] + list(st[2:]))
+                elif st[0] == 'labels':
+                    cs.append(['labels', [x for j, x in enumerate(st[1]) if j != i], [x for j, x in enumerate(st[2]) if j != i]])
+                else:
+                    cs.append(st)
+            if failing(cn, cs):
+                nodes, steps = cn, cs; changed = True; break
+    return nodes, steps
+
+# ---------------------------------------------------------------- known finding KF-C08-1: recursion
+CHAIN_FP = 'impl-crash:RecursionError:apriori-chain'
+
+def chain_nodes(length):
+    """an enabled defense followed by a chain of `length` 'or' steps"""
+    nodes = [{'type': 'defense', 'def': 1.0, 'children': [1], 'parents': [], 'ttc': 'none'}]
+    for i in range(1, length + 1):
+        nodes.append({'type': 'or', 'children': [i + 1] if i < length else [], 'parents': [i - 1], 'ttc': 'none'})
+    return nodes
+
+def chain_outcome(length):
+    """run the real analysis on the chain (plain interpreter recursion limit as found).  Returns the
+    fingerprint of the known finding if the analysis dies of RecursionError half-way, else None."""
+    from maltoolbox.attackgraph.analyzers.apriori import calculate_viability_and_necessity
+    g, objs = build_graph(chain_nodes(length))
     try:
         calculate_viability_and_necessity(g)
-        first = labels()
-        calculate_viability_and_necessity(g)
     except RecursionError:
-        return None, aborted
-    if any(first[k] != orc[k] for k in ('viable', 'necessary')):
-        return ('after an aborted run and its repair, ' if aborted else '') + 'analysing the graph again does not give the greatest fixed point', aborted
-    if labels() != first:
-        return 'a second run of the analysis changes the labels', aborted
-    return None, aborted
+        left = sum(1 for o in objs[1:] if o.is_viable)
+        return CHAIN_FP, {'chain': length, 'recursion_limit': sys.getrecursionlimit(),
+                          'steps_left_viable_although_below_an_enabled_defense': left}
+    return None, {'chain': length, 'all_unviable': all(not o.is_viable for o in objs[1:])}
+
+def check_witness(w):
+    """replay of a listed known finding (harness/run.py calls this on every run)"""
+    if 'chain' in w:
+        return chain_outcome(w['chain'])[0]
+    if 'history_nodes' in w:
+        bad, _ = apply_history(w['history_nodes'], w['history'])
+        return HISTORY_FP if bad else None
+    return None
+
+HISTORY_FP = 'C08:rerun:labels-not-gfp'
 
 def oracle(nodes):
     """independent reference: greatest fixed point by Kleene iteration from top"""
@@ -133,13 +272,36 @@ def exhaustive(n, variants, ttc_choices):
                 edges = [pairs[k] for k in range(len(pairs)) if mask >> k & 1]
                 yield mk_nodes([c[0] for c in combo], edges, [c[1] for c in combo], [c[2] for c in combo], list(ttcs))
 
+RANDOM_TTC = ['none', 'empty', 'enabled', 'disabled', 'dist', 'bernoulli', 'composite', 'subtraction',
+              'multiplication', 'division', 'exponentiation', 'composite_enabled', 'number']
+RANDOM_TTC_W = [6, 1, 2, 2, 4, 1, 3, 1, 1, 1, 1, 1, 3]
+
+def late_ttc(nodes, rnd, share=0.34):
+    """for about a third of the nodes: construct the node object with a TTC of the other sort and assign the
+    intended one to the public field afterwards (agbuild.build_graph: 'ttc0')"""
+    for nd in nodes:
+        if rnd.random() < share:
+            nd['ttc0'] = opposite_kind(nd.get('ttc', 'none'), rnd.randrange(16))
+    return nodes
+
+def stale_labels(nodes, rnd):
+    """labels the nodes carry before the analysis is called (as if loaded from a file)"""
+    for nd in nodes:
+        nd['viable'] = rnd.random() < 0.5; nd['necessary'] = rnd.random() < 0.5
+    return nodes
+
 def random_graph(rnd, nmax):
     n = rnd.randint(2, nmax)
     types, defs, exists, ttcs = [], [], [], []
+    # unnecessary parents (disabled defenses, existing assets' exist steps and whatever they feed) with a TTC
+    # matter for 'and' children: bias some graphs towards them
+    many_unnecessary = rnd.random() < 0.4
     for _ in range(n):
         t = rnd.choices(['or', 'and', 'defense', 'exist', 'notExist'], [4, 4, 2, 1, 1])[0]
-        types.append(t); defs.append(rnd.choice([0.0, 0.5, 1.0, 1.0])); exists.append(rnd.random() < 0.5)
-        ttcs.append(rnd.choices(['none', 'enabled', 'disabled', 'dist', 'composite'], [4, 1, 1, 3, 1])[0])
+        types.append(t)
+        defs.append(rnd.choice([0.0, 0.0, 0.0, 0.5, 1.0] if many_unnecessary else [0.0, 0.5, 1.0, 1.0]))
+        exists.append(rnd.random() < (0.8 if many_unnecessary and t == 'exist' else 0.5))
+        ttcs.append(rnd.choices(RANDOM_TTC, RANDOM_TTC_W)[0])
     edges = []
     dens = rnd.choice([0.5, 1.0, 1.5, 2.5]) / n
     for p in range(n):
@@ -147,7 +309,7 @@ def random_graph(rnd, nmax):
             if rnd.random() < dens and types[c] in ('or', 'and'):
                 edges.append((p, c))
                 if rnd.random() < 0.05: edges.append((p, c))
-    return mk_nodes(types, edges, defs, exists, ttcs, rnd)
+    return late_ttc(mk_nodes(types, edges, defs, exists, ttcs, rnd), rnd)
 
 def compare(nodes, im, mo):
     """property observables: the two label vectors"""
@@ -186,30 +348,50 @@ def shrink(nodes, failing):
 def fingerprint(nodes, im, orc):
     return 'C08:labels-not-gfp'
 
+# TTC kinds of the exhaustive families
+QUICK_KINDS = ['none', 'dist']
+NONAME_KINDS = ['none', 'composite', 'number', 'empty', 'enabled']     # TTCs without a 'name' key, {} and a pseudo-distribution
+THOROUGH_KINDS = ['none', 'empty', 'enabled', 'disabled', 'dist', 'composite', 'number']
+# node variants under which a TTC matters: steps fed by unnecessary status nodes
+VARIANTS_UNNEC = [('or', None, None), ('and', None, None), ('defense', 0.0, None), ('exist', None, True)]
+
 def run(seed, tier, lean) -> Result:
     rnd = random.Random(seed)
-    res = Result(rule='graphs: exhaustive small (all types x edge sets incl. self-loops x statuses x TTC kinds) '
-                      '+ random <= 40 nodes, each under storage permutations; non-trivial = some label differs '
-                      'from the default (True, True); distinct by canonical hash of the node list')
+    res = Result(rule='graphs: exhaustive small (all types x edge sets incl. self-loops x statuses x TTC kinds incl. '
+                      'composite / number / {} ) + random <= 40 nodes (13 TTC kinds, a third of the TTCs assigned after '
+                      'construction, a fifth with pre-set labels), each under storage permutations; histories on one '
+                      'graph object (status / TTC changes in both directions, pre-set labels, public evaluate_* / '
+                      'propagate_* calls, aborted runs between analyses) with the gfp oracle after every analysis; '
+                      'non-trivial = some label differs from the default (True, True); distinct by canonical hash')
     cases = []
     if tier == 'quick':
-        cases += list(exhaustive(1, VARIANTS_FULL, ['none', 'dist']))
-        cases += list(exhaustive(2, VARIANTS_FULL, ['none', 'dist']))
-        nrand, nmax, nperm = 1500, 12, 2
+        cases += list(exhaustive(1, VARIANTS_FULL, QUICK_KINDS))
+        cases += list(exhaustive(2, VARIANTS_FULL, QUICK_KINDS))
+        nex_old = len(cases)
+        cases += list(exhaustive(1, VARIANTS_UNNEC, NONAME_KINDS))
+        cases += list(exhaustive(2, VARIANTS_UNNEC, NONAME_KINDS))
+        nrand, nmax, nperm, nhist = 1500, 12, 2, 1500
     else:
-        cases += list(exhaustive(1, VARIANTS_FULL, list(TTC_KINDS)))
-        cases += list(exhaustive(2, VARIANTS_FULL, list(TTC_KINDS)))
+        cases += list(exhaustive(1, VARIANTS_FULL, THOROUGH_KINDS))
+        cases += list(exhaustive(2, VARIANTS_FULL, THOROUGH_KINDS))
+        nex_old = len(cases)
         red = [('or', None, None), ('and', None, None), ('defense', 1.0, None), ('exist', None, True)]
         cases += list(exhaustive(3, red, ['none', 'dist']))
-        nrand, nmax, nperm = 4000, 30, 3
+        nrand, nmax, nperm, nhist = 4000, 30, 3, 9000
     nex = len(cases)
+    # exhaustive cases: every third one gets a TTC assigned after construction, on one of its nodes
+    for k in range(0, nex, 3):
+        nd = cases[k][(k // 3) % len(cases[k])]
+        nd['ttc0'] = opposite_kind(nd.get('ttc', 'none'), k // 3)
     for _ in range(nrand):
-        cases.append(random_graph(rnd, nmax))
+        g = random_graph(rnd, nmax)
+        if rnd.random() < 0.2: stale_labels(g, rnd)
+        cases.append(g)
     res.bump('exhaustive_small', nex); res.bump('random', nrand)
     # permutations of storage order
     perm_of = {}
     base_n = len(cases)
-    for b in range(nex // 7, base_n, 1 if tier == 'thorough' and False else 1):
+    for b in range(nex_old // 7, base_n):
         if b < nex and b % 5: continue
         nodes = cases[b]
         if len(nodes) < 2: continue
@@ -219,7 +401,7 @@ def run(seed, tier, lean) -> Result:
             perm_of[len(cases)] = (b, perm); cases.append(pn)
     res.bump('permuted', len(cases) - base_n)
     have_driver = lean['build_ok']
-    model = run_driver([payload(n, i) for i, n in enumerate(cases)]) if have_driver else None
+    model = run_driver([payload(n, i, labels0_of(n)) for i, n in enumerate(cases)]) if have_driver else None
     impl_out = []
     for i, nodes in enumerate(cases):
         im = impl(nodes); impl_out.append(im)
@@ -229,6 +411,9 @@ def run(seed, tier, lean) -> Result:
             res.nontrivial.add(canon_hash(nodes))
         if any(c in nodes[p]['children'] for p in range(len(nodes)) for c in [p]): res.bump('self_loop')
         if any(gate_of(n.get('ttc', 'none')) for n in nodes): res.bump('gated')
+        if any(n.get('ttc', 'none') in DIST_KINDS and 'name' not in TTC_KINDS[n['ttc']] for n in nodes): res.bump('ttc_without_name')
+        if any('ttc0' in n for n in nodes): res.bump('ttc_assigned_after_construction')
+        if labels0_of(nodes): res.bump('preset_labels')
         d = compare(nodes, im, mo)
         if d:
             def failing(ns):
@@ -258,30 +443,90 @@ def run(seed, tier, lean) -> Result:
                         break
         if len(res.samples) < 3 and len(nodes) >= 3 and 'error' not in im and not all(im['viable']):
             res.samples.append({'nodes': nodes, 'impl': im, 'model': mo})
-    # re-runs on the same graph object (oracle only)
+    # histories on one graph object: status / TTC changes, pre-set labels, public evaluate / propagate calls and
+    # aborted runs between analyses; the gfp oracle after every analysis, the Lean model (started from the labels
+    # the implementation had before the call) for every analysis
     r2 = random.Random(seed ^ 0xC08)
-    for _ in range(600 if tier == 'quick' else 3600):
-        nodes = random_graph(r2, 8)
-        rs = r2.getrandbits(32)
-        bad, aborted = rerun_problem(nodes, random.Random(rs))
-        res.evaluations += 1; res.bump('rerun_after_abort' if aborted else 'rerun')
-        if bad:
-            def failing(ns):
-                try: return rerun_problem(ns, random.Random(rs))[0] is not None
-                except Exception: return False
-            small = shrink(nodes, failing)
-            res.violations.append(Violation(what=bad, fingerprint='C08:rerun:' + bad[:40], replay={'rerun_nodes': small, 'rerun_seed': rs, 'problem': bad}))
-            break
+    hist_calls = []
+    reported = False
+    for h in range(nhist):
+        nodes = random_graph(r2, 8 if h % 4 else 14)
+        steps = FIXED_HISTORIES[h][1] if h < len(FIXED_HISTORIES) else random_history(r2, nodes)
+        if h < len(FIXED_HISTORIES): nodes = FIXED_HISTORIES[h][0]
+        bad, calls = apply_history(nodes, steps)
+        res.evaluations += 1; res.bump('history'); res.bump('history_analyses', len(calls))
+        for st in steps: res.bump('history_step_' + st[0])
+        if len(calls) > 1 and any(not all(c[2][0]) or not all(c[2][1]) for c in calls):
+            res.nontrivial.add(canon_hash([nodes, steps]))
+        hist_calls += calls
+        if bad and not reported:
+            reported = True
+            failing = lambda ns, ss: apply_history(ns, ss)[0] is not None
+            sn, ss = shrink_history(nodes, steps, failing)
+            res.violations.append(Violation(what=apply_history(sn, ss)[0] or bad, fingerprint=HISTORY_FP,
+                                            replay={'history_nodes': sn, 'history': ss, 'problem': bad,
+                                                    'original_nodes': nodes, 'original_history': steps}))
+    if have_driver and hist_calls:
+        mod2 = run_driver([payload(snap, i, before) for i, (snap, before, after) in enumerate(hist_calls)])
+        for (snap, before, after), m in zip(hist_calls, mod2):
+            mo = m['model']
+            if list(after[0]) != mo['viable'] or list(after[1]) != mo['necessary']:
+                orc = oracle(snap)
+                res.violations.append(Violation(
+                    what='implementation and Lean model disagree on an analysis started from given labels',
+                    fingerprint='C08:model-divergence' if (list(after[0]) == orc['viable'] and list(after[1]) == orc['necessary']) else HISTORY_FP + ':call',
+                    replay={'nodes': snap, 'labels_before': before, 'impl': {'viable': after[0], 'necessary': after[1]},
+                            'model': mo, 'gfp': orc},
+                    no_failing_input=(list(after[0]) == orc['viable'] and list(after[1]) == orc['necessary'])))
+                break
+    # known finding KF-C08-1: the propagation is recursive; a long chain dies of RecursionError half-way
+    fp, info = chain_outcome(3000)
+    res.evaluations += 1; res.bump('recursion_chain')
+    if fp:
+        res.violations.append(Violation(
+            what='calculate_viability_and_necessity raises RecursionError on a chain of 3000 steps below an enabled '
+                 'defense and leaves the deeper steps with their default labels', fingerprint=fp, replay=info))
     if not res.samples:
         res.samples.append({'nodes': cases[-1], 'impl': impl_out[-1]})
     return res
 
+def _fixed_histories():
+    """the three repaired re-run defects as fixed scenarios (run first in every seed)"""
+    one = [{'type': 'defense', 'def': 1.0, 'children': [1], 'parents': [], 'ttc': 'none'},
+           {'type': 'or', 'children': [], 'parents': [0], 'ttc': 'none'}]
+    two = [{'type': 'defense', 'def': 1.0, 'children': [2], 'parents': [], 'ttc': 'none'},
+           {'type': 'defense', 'def': 1.0, 'children': [2], 'parents': [], 'ttc': 'none'},
+           {'type': 'or', 'children': [], 'parents': [0, 1], 'ttc': 'none'}]
+    twon = [{'type': 'defense', 'def': 0.0, 'children': [2], 'parents': [], 'ttc': 'none'},
+            {'type': 'defense', 'def': 0.0, 'children': [2], 'parents': [], 'ttc': 'none'},
+            {'type': 'and', 'children': [], 'parents': [0, 1], 'ttc': 'none'}]
+    ttc = [{'type': 'exist', 'exist': True, 'children': [1], 'parents': [], 'ttc': 'none'},
+           {'type': 'or', 'children': [2], 'parents': [0], 'ttc': 'none'},
+           {'type': 'and', 'children': [], 'parents': [1], 'ttc': 'none'}]
+    return [
+        (one, [['calc'], ['def', 0, 0.5], ['calc'], ['def', 0, 1.0], ['calc']]),
+        (two, [['calc'], ['def', 1, 0.0], ['calc'], ['def', 1, 1.0], ['calc']]),
+        (twon, [['calc'], ['def', 1, 1.0], ['calc'], ['def', 1, 0.0], ['calc']]),
+        (one, [['labels', [False, False], [False, False]], ['calc']]),
+        (two, [['labels', [True, False, False], [False, False, False]], ['def', 1, 0.0], ['calc']]),
+        (ttc, [['calc'], ['ttc', 1, 'composite'], ['calc'], ['ttc', 1, 'enabled'], ['calc'], ['ttc', 1, 'number'], ['calc'],
+               ['ttc', 1, 'empty'], ['calc']]),
+        (one, [['calc'], ['def', 0, 0.5], ['evaluate', 0], ['evaluate', 1], ['calc']]),
+    ]
+FIXED_HISTORIES = _fixed_histories()
+
 def replay(path):
     r = json.load(open(path))
-    if 'rerun_nodes' in r:
-        bad, _ = rerun_problem(r['rerun_nodes'], random.Random(r['rerun_seed'])); print(bad)
+    if 'chain' in r:
+        fp, info = chain_outcome(r['chain']); print(info)
+        print('VIOLATION reproduced' if fp else 'not reproduced'); return 1 if fp else 0
+    if 'history_nodes' in r:
+        bad, calls = apply_history(r['history_nodes'], r['history']); print(bad)
+        for snap, before, after in calls: print('  analysis: labels before', before, 'after', after, 'gfp', oracle(snap))
         print('VIOLATION reproduced' if bad else 'not reproduced'); return 1 if bad else 0
     nodes = r['nodes']
+    if 'labels_before' in r:
+        for nd, v, n in zip(nodes, *r['labels_before']): nd['viable'] = v; nd['necessary'] = n
     im, orc = impl(nodes), oracle(nodes)
     print('impl  ', im); print('gfp   ', orc)
     bad = 'error' in im or any(im[k] != orc[k] for k in ('viable', 'necessary'))
